@@ -1,7 +1,7 @@
 (* C14 -- local/regional extrema, hole closing and hit-or-miss. *)
 Require Import MV.Base.Prelude MV.Base.CInt MV.Base.Index MV.Base.BorderSpec.
 Require Import MV.Gen.Scalar_gen MV.Model.Filter MV.Model.Morph MV.Model.Label MV.Model.Extrema.
-Require Import MV.Proof.MorphProof MV.Proof.ExtremaProof.
+Require Import MV.Proof.MorphProof MV.Proof.ExtremaProof MV.Proof.FloodProof MV.Proof.RegionalProof MV.Proof.RegionalSound.
 
 (* locmax/locmin mark exactly the pixels that no neighbour (member of the neighbourhood other than the centre,
    edge-replicated) exceeds / undercuts: any dimension, dtype values, neighbourhood *)
@@ -20,3 +20,61 @@ Theorem C14_hitmiss_odd_templates : forall f t, pos_shape (shape f) -> length (s
   Forall (fun b => 0 < b /\ Z.rem b 2 = 1) (shape t) ->
   hitmiss f t = hitmiss_spec f t.
 Proof. exact hitmiss_odd_templates. Qed.
+
+(* close_holes: the stack-based flood started from the border background pixels marks exactly the background reachable from
+   the border through the neighbourhood (any image, any neighbourhood, any dimension; the fuel 2N+2 of the model is shown
+   to suffice); the result is 0 exactly on those pixels and 1 everywhere else -- the foreground and the enclosed holes *)
+Theorem C14_close_holes_fills_exactly_the_unreachable_background : forall ref bc, wf_arr ref ->
+  forall p, in_shape (shape ref) p ->
+  (nthZ 0 (close_holes ref bc) (ravel (shape ref) p) = 0 <-> reach ref (ch_offs bc) (ch_seeds ref) p) /\
+  (nthZ 0 (close_holes ref bc) (ravel (shape ref) p) = 1 <-> ~ reach ref (ch_offs bc) (ch_seeds ref) p).
+Proof. exact close_holes_correct. Qed.
+
+(* regmax / regmin never discard a genuine regional extremum: a set R of local extrema such that every in-image neighbour of a
+   member is a member or strictly worse (a plateau that is a regional extremum, or any union of such) is still entirely marked
+   after the remove_fake_regmin_max scan and all its floods -- symmetric neighbourhood, any image, any dimension.
+   (With C14_regional_subset_of_local this gives: local extrema in, nothing regional lost.) *)
+Theorem C14_regional_extrema_are_never_discarded : forall is_min f bc (R : list Z -> Prop),
+  shape_ok (shape f) -> pos_shape (shape f) ->
+  (forall off p, In off (nbr_offsets bc) -> in_shape (shape f) p -> in_shape (shape f) (padd p off) ->
+     exists off', In off' (nbr_offsets bc) /\ padd (padd p off) off' = p) ->
+  (forall p, R p -> in_shape (shape f) p /\ nthZ 0 (locmm is_min f bc) (ravel (shape f) p) <> 0) ->
+  (forall p off, R p -> In off (nbr_offsets bc) -> in_shape (shape f) (padd p off) ->
+     R (padd p off) \/ weakly_better is_min (aget f (padd p off)) (aget f p) = false) ->
+  forall p, R p -> nthZ 0 (regmm is_min f bc) (ravel (shape f) p) <> 0.
+Proof. exact regmm_keeps_regional_extrema. Qed.
+
+(* ... and what is kept is plateau-closed: a pixel that is still marked has no unmarked in-image neighbour that is weakly
+   better (so equal-valued neighbours of a regional extremum are marked with it and the others are strictly worse) *)
+Theorem C14_regional_extrema_are_plateau_closed : forall is_min f bc, pos_shape (shape f) ->
+  (forall off p, In off (nbr_offsets bc) -> in_shape (shape f) p -> in_shape (shape f) (padd p off) ->
+     exists off', In off' (nbr_offsets bc) /\ padd (padd p off) off' = p) ->
+  forall p, in_shape (shape f) p -> nthZ 0 (regmm is_min f bc) (ravel (shape f) p) <> 0 ->
+  forall off, In off (nbr_offsets bc) -> in_shape (shape f) (padd p off) ->
+  nthZ 0 (regmm is_min f bc) (ravel (shape f) (padd p off)) = 0 ->
+  weakly_better is_min (aget f (padd p off)) (aget f p) = false.
+Proof. exact regmm_is_plateau_closed. Qed.
+
+(* together: for a symmetric neighbourhood the marked set of regmax/regmin is the GREATEST set of local extrema in which every
+   in-image neighbour of a member is a member or strictly worse -- i.e. exactly the union of the regional-extremum plateaus *)
+Theorem C14_regional_extrema_characterised : forall is_min f bc,
+  shape_ok (shape f) -> pos_shape (shape f) ->
+  (forall off p, In off (nbr_offsets bc) -> in_shape (shape f) p -> in_shape (shape f) (padd p off) ->
+     exists off', In off' (nbr_offsets bc) /\ padd (padd p off) off' = p) ->
+  let M := fun p => in_shape (shape f) p /\ nthZ 0 (regmm is_min f bc) (ravel (shape f) p) <> 0 in
+  let good (R : list Z -> Prop) :=
+    (forall p, R p -> in_shape (shape f) p /\ nthZ 0 (locmm is_min f bc) (ravel (shape f) p) <> 0) /\
+    (forall p off, R p -> In off (nbr_offsets bc) -> in_shape (shape f) (padd p off) ->
+       R (padd p off) \/ weakly_better is_min (aget f (padd p off)) (aget f p) = false) in
+  good M /\ forall R, good R -> forall p, R p -> M p.
+Proof.
+  intros is_min f bc So Ps Sym M good. split.
+  - split.
+    + intros p [Hp Mp]. split; [exact Hp|]. rewrite <- (regmm_subset_locmm is_min f bc _ Mp). exact Mp.
+    + intros p off [Hp Mp] Ho Hn.
+      destruct (Z.eq_dec (nthZ 0 (regmm is_min f bc) (ravel (shape f) (padd p off))) 0) as [Z0|NZ].
+      * right. apply (regmm_is_plateau_closed is_min f bc Ps Sym p Hp Mp off Ho Hn Z0).
+      * left. split; assumption.
+  - intros R [R1 R2] p Rp. split; [apply R1; exact Rp|].
+    apply (regmm_keeps_regional_extrema is_min f bc R So Ps Sym R1 R2 p Rp).
+Qed.
